@@ -11,6 +11,10 @@ fn replay(file: &str) -> ! {
         "market/escrow" => replay_with(&c06::scenario(tier).0, &v),
         "market/payments" => replay_with(&c07::scenario(tier).0, &v),
         "market/lifecycle" => replay_with(&c08::scenario(tier).0, &v),
+        "miner-life/c02" => replay_with(&c02::scenario(tier).0, &v),
+        "miner-life/c03" => replay_with(&c03::scenario(tier).0, &v),
+        "miner-life/c04" => replay_with(&c04::scenario(tier).0, &v),
+        "miner-life/c05" => replay_with(&c05::scenario(tier).0, &v),
         "multisig" => replay_with(&c12::scenario(tier).0, &v),
         s if s.starts_with("c09") => c09::replay(&v),
         s if s.starts_with("c17") => c17::replay(&v),
@@ -26,6 +30,15 @@ fn replay(file: &str) -> ! {
 
 fn main() {
     mcvm::install_panic_hook();
+    // a panic in the harness itself (set-up recipe failed, internal error) is a machinery failure
+    let r = std::panic::catch_unwind(real_main);
+    if r.is_err() {
+        eprintln!("MACHINERY-FAILURE: the harness panicked (see above); this is not a verdict");
+        std::process::exit(2);
+    }
+}
+
+fn real_main() {
     let args: Vec<String> = std::env::args().collect();
     if args.len() < 2 {
         eprintln!("usage: mc <Cxx> [quick|thorough] | mc replay <file>");
@@ -34,6 +47,10 @@ fn main() {
     let tier = args.get(2).cloned().or(std::env::var("VERIF_TIER").ok()).unwrap_or("quick".into());
     match args[1].to_uppercase().as_str() {
         "REPLAY" => replay(&args[2]),
+        "C02" => c02::run(&tier),
+        "C03" => c03::run(&tier),
+        "C04" => c04::run(&tier),
+        "C05" => c05::run(&tier),
         "C06" => c06::run(&tier),
         "C07" => c07::run(&tier),
         "C08" => c08::run(&tier),
